@@ -749,7 +749,7 @@ class TranscriptInterval(AbstractFeatureInterval):
             (self.start if chromosome_relative_coordinates else self.chunk_relative_start) + 1,
             self.end if chromosome_relative_coordinates else self.chunk_relative_end,
             NULL_COLUMN,
-            self.strand,
+            self.strand if chromosome_relative_coordinates else self.chunk_relative_strand,
             CDSPhase.NONE,
             attributes,
         )
@@ -777,7 +777,7 @@ class TranscriptInterval(AbstractFeatureInterval):
                 start + 1,
                 end,
                 NULL_COLUMN,
-                self.strand,
+                self.strand if chromosome_relative_coordinates else self.chunk_relative_strand,
                 CDSPhase.NONE,
                 attributes,
             )
